@@ -196,6 +196,15 @@ theorem applyOp_ok (s s' : PolyState) (op : PolyOp) (hs : TermsOK s) (h : applyO
     split at h
     · simp only [Except.ok.injEq] at h; subst h; exact relabelStep_ok _ s hs
     · simp at h
+  | relabelVia m =>
+    simp only [applyOp, relabelConflict] at h
+    split at h
+    · simp at h
+    · split at h
+      · simp at h
+      · split at h
+        · simp only [Except.ok.injEq] at h; subst h; exact relabelStep_ok _ _ (relabelStep_ok _ s hs)
+        · simp at h
 
 theorem runOps_ok (ops : List PolyOp) (s s' : PolyState) (hs : TermsOK s) (h : runOps s ops = .ok s') : TermsOK s' := by
   induction ops generalizing s with
